@@ -351,7 +351,15 @@ def runMonitor (s : St) (opKind : String) (cur : Option Seen) (now : Nat) (relay
         let ok := match e.msg with
           | .ca a => added.contains a.scid &&
               (match lookup a.scid after.chans with | some ci => caJustifies s e a.scid ci | none => false)
-          | .cu u => changedPols.any (fun kp => kp.1 == (u.scid, u.cf % 2) && kp.2 == u.policy)
+          | .cu u =>
+            changedPols.any (fun kp => kp.1 == (u.scid, u.cf % 2) && kp.2 == u.policy) ||
+            -- several cached updates of one direction are replayed in goroutine order: an
+            -- update that was validly applied and then superseded within the same step is
+            -- still a legitimate relay (authentic and strictly newer than the state before)
+            (replayOp && (match lookup u.scid after.chans with
+              | some ci => updJustifies s now e u.scid (u.cf % 2) ci
+                  (lookup (u.scid, u.cf % 2) before.pols) u.policy
+              | none => false))
           | .na x => changedNodes.any (fun kn => kn.1 == x.node && kn.2 == ⟨x.ts, some x.fields⟩)
         if !ok then
           s ← monitor s "not-relayed-unless-accepted" s!"message id={id} was broadcast although it did not (validly) change the graph in this step"
